@@ -112,23 +112,22 @@ func runC05(c *Ctx) {
 	}
 	accNonEmpty := plainEdges(edgesMatching(b, "bin<>=>(len(p0), 1)", "bin<>>(len(p0), 0)"))
 	accCase := plainEdges(edgesMatching(b, "bin<==>(call<*>(p0), nil)"))
-	var hrpLoop *rangeLoop
-	loops := rangeLoopsAll(b)
-	for i := range loops {
-		l := &loops[i]
+	// the HRP loop in Encode, or in a first-violation scanner Encode tests against "none found"
+	hrpGate := scanGates(c, b, func(b2 *ana.Builder, l *rangeLoop) bool {
 		if !l.Coll.IsParam(0) {
-			continue
+			return false
 		}
-		for _, ce := range b.CondEdges() {
+		for _, ce := range b2.CondEdges() {
 			if _, m := ana.Match("call<*>(ext#2(next(range(p0))))", ce.Lit); m {
-				if h := calleeOf(ce.Lit); h != nil && runeHelperASCII(c, h) && forAll(b, *l, ce.Lit.String()) {
-					hrpLoop = l
+				if h := calleeOf(ce.Lit); h != nil && runeHelperASCII(c, h) && forAll(b2, *l, ce.Lit.String()) {
+					return true
 				}
 			}
 		}
-	}
-	rejects := plainEdges(edgesMatching(b, "bin<<>(len(p0), 1)", "bin<<=>(len(p0), 0)",
-		"un<!>(call<*>(ext#2(next(range(p0)))))", "bin<!=>(call<*>(p0), nil)"))
+		return false
+	})
+	rejects := c.rejectEdges(b, "bin<<>(len(p0), 1)", "bin<<=>(len(p0), 0)",
+		"un<!>(call<*>(ext#2(next(range(p0)))))", "bin<!=>(call<*>(p0), nil)")
 	rejects = append(rejects, rejLen...)
 	avoid := ana.ReachableAvoiding(fn, rejects)
 	for _, e := range errs {
@@ -140,7 +139,7 @@ func runC05(c *Ctx) {
 		_ = accLen
 		_ = accNonEmpty
 		r.Check(mustPass(fn, blk, accCase), "C05.exits.gate.single-case", c.ipos(e.Instr), "success passes the single-case gate on hrp")
-		r.Check(hrpLoop != nil && mustPass(fn, blk, []ana.Edge{{From: hrpLoop.Header, To: hrpLoop.Exit}}), "C05.exits.gate.hrp-chars", c.ipos(e.Instr), "success follows a loop over hrp that continues only for runes in 33..126")
+		r.Check(mustPass(fn, blk, hrpGate), "C05.exits.gate.hrp-chars", c.ipos(e.Instr), "success follows a loop over hrp that continues only for runes in 33..126")
 	}
 	// the case gate helper is the same validateCase as Decode's (decided under C04)
 	if dec := c.P.Func("pkg/bech32", "Decode"); dec != nil {
